@@ -156,6 +156,9 @@ def instrumented(case):
         r.run()
     except BaseException:
         pass
+    # run(until=<an event that fails>) aborts that event's callback loop (reading decision, DESIGN section 3):
+    # what such a plan does afterwards is outside the statements, so the oracles stand down on it
+    r.out_of_scope = any(n[0] == 'until-event-failed' for n in r.notes)
     return r
 
 
@@ -165,6 +168,8 @@ def oracle_c02(case, lines, runner=None):
     if case.mode != 'step':
         return []
     r = instrumented(case)
+    if r.out_of_scope:
+        return []
     fails = []
     waiting = {}
     ext = externally_triggered(r)
@@ -218,7 +223,7 @@ def oracle_c02(case, lines, runner=None):
 def oracle_c04(case, lines, runner=None):
     """interrupts: refused iff the victim is dead or the caller itself; delivered once, at the issue instant, in issue order"""
     r = instrumented(case)
-    if externally_triggered(r):
+    if externally_triggered(r) or r.out_of_scope:
         return []
     fails = []
     issued = {}      # victim name -> list of (cause, now)
@@ -230,7 +235,7 @@ def oracle_c04(case, lines, runner=None):
         if rec[0] == 'resumed' and (not rec[3]) and type(rec[4]).__name__ == 'Interrupt':
             y = waiting.get(rec[2])
             p = r.processed.get(y[3]) if y else None
-            if p is not None and p[2] is False and type(p[3]).__name__ == 'Interrupt' and p[3].args == rec[4].args:
+            if p is not None and p[0] < rec[1] and p[2] is False and type(p[3]).__name__ == 'Interrupt' and p[3].args == rec[4].args:
                 continue      # not an interrupt: the awaited event (a process that re-raised its Interrupt) failed with this exception
         if rec[0] == 'interrupt':
             _, seq, by, victim, cause, alive, selfi, raised, now = rec
@@ -272,6 +277,8 @@ def nodes(ev):
 def oracle_c05(case, lines, runner=None):
     """conditions: processed at the instant the predicate first holds; value = processed leaves in operand order"""
     r = instrumented(case)
+    if r.out_of_scope:
+        return []
     fails = []
     by_label = {r.lab(e): e for e in r.keep}
     ext = externally_triggered(r)
